@@ -56,7 +56,8 @@ Print Assumptions C02_frames_prefix.
    errors lie in between.  (Before the first accepted frame a rejected frame of 32 bytes or more
    freezes the first-frame flag and the digests - modelled exactly in Model/Frame.v
    [fail_decrypt], compared with the real receiver by the correspondence run - after which the
-   real receiver accepts nothing at all any more; that state is outside this theorem.) *)
+   receiver accepts nothing at all any more: C02_frames_prefix_reading_on below covers that
+   state too.) *)
 Theorem C02_frames_prefix_across_errors :
   forall (fs' : list frame) (A B : stream) (k : bytes) (o : other_dir) (K : ctext -> Prop)
          (tr : list (bytes * N)) (fs : list frame) (A' : stream),
@@ -66,6 +67,40 @@ Theorem C02_frames_prefix_across_errors :
     prefix (snd (recv_frames_all B fs')) tr.
 Proof. exact prefix_frames_across_errors. Qed.
 Print Assumptions C02_frames_prefix_across_errors.
+
+(* The unconditional form: from ANY point of a session - the receiver still waiting for its first
+   protected frame, or established - and however long the application reads on after errors,
+   what is accepted is a prefix of what the sender sent.  It needs one more fact about the
+   ciphertexts in the attacker's hands, true of every frame a cedar sender emits
+   (C02_sender_frames_shaped): a ciphertext sealed under header-only associated data is the
+   body of a frame whose header announces exactly plaintext + tag bytes.  That is what makes a
+   "poisoned" receiver (a rejected would-be first frame of 32 bytes or more froze its
+   first-frame flag while its counter is still 0) reject everything for ever
+   (C02_poisoned_accepts_nothing): it takes the IV from each frame it is shown, so the body
+   it authenticates is 16 bytes longer than any header-only ciphertext's own frame. *)
+Theorem C02_frames_prefix_reading_on :
+  forall (fs' : list frame) (A B : stream) (k : bytes) (o : other_dir) (K : ctext -> Prop)
+         (tr : list (bytes * N)) (fs : list frame) (A' : stream),
+    duplex A B -> key A = Some k -> encrypted A = true -> wf_send A -> reflect_safe A B o ->
+    sent A tr fs A' -> known_ok k (enc_iv A) (enc_ctr A) fs o K -> uses_only K fs' ->
+    (forall f' ivo ct, In f' fs' -> f_body f' = Ct ivo ct -> hdr_shaped ct) ->
+    prefix (snd (recv_frames_all B fs')) tr.
+Proof. exact prefix_frames_all. Qed.
+Print Assumptions C02_frames_prefix_reading_on.
+
+Theorem C02_poisoned_accepts_nothing :
+  forall (fs' : list frame) (B : stream) (k : bytes),
+    enc_active B = true -> key B = Some k -> poisoned B ->
+    (forall f' ivo ct, In f' fs' -> f_body f' = Ct ivo ct -> hdr_shaped ct) ->
+    snd (recv_frames_all B fs') = [].
+Proof. exact poisoned_accepts_nothing. Qed.
+Print Assumptions C02_poisoned_accepts_nothing.
+
+Theorem C02_sender_frames_shaped :
+  forall (s : stream) (d : bytes) (fl : N) (s' : stream) (f : frame) (ivo : option bytes) (ct : ctext),
+    send_frame s d fl = (s', SOk f) -> wf_send s -> f_body f = Ct ivo ct -> hdr_shaped ct.
+Proof. exact send_frame_shaped. Qed.
+Print Assumptions C02_sender_frames_shaped.
 
 (* A rejected frame does not change an established receiver at all. *)
 Theorem C02_rejected_frame_changes_nothing :
